@@ -73,7 +73,7 @@ def validate_file(chk: Check, path: Path, n: int, props: set[str], family: str, 
 
 def _validate_one(chk: Check, path: Path, n: int, props: set[str], family: str, spec: str = "Trace_Bounds") -> list:
     cfg = chk.wd / f"{path.stem}.cfg"
-    consts = {"N": n, "Props": set(props)} if spec not in ("Trace_Crash", "Trace_Save", "Trace_Regret") else {"Props": set(props)}
+    consts = {"N": n, "Props": set(props)} if spec not in ("Trace_Crash", "Trace_Save", "Trace_Regret", "Trace_VecEnv") else {"Props": set(props)}
     vlib.write_cfg(cfg, spec="TraceSpec", constants=consts, postcondition="AllConsumed")
     res = vlib.run_tlc(spec, cfg, chk.wd, env={"TRACE_FILE": str(path)}, timeout=1500)
     if res.timed_out or not res.ok:
